@@ -11,6 +11,7 @@
 package c10
 
 import (
+	"cedarverif/internal/ltrace"
 	"encoding/json"
 	"fmt"
 	"os"
@@ -542,6 +543,29 @@ func run(c *core.Ctx) {
 	st := &stats{bySig: map[string]int{}}
 	replay(c, env, scs, st)
 	replay(c, env, extra, st)
+	// code -> spec: a seeded sample of the configurations is run once more with
+	// the hook events of stream / security collected, and every endpoint's life
+	// cycle is validated by TLC against ConnLifecycle_Trace (HandshakeOK per
+	// outcome, key before the post-auth ad, no cleartext after a REQUIRED handshake)
+	{
+		n := 500
+		if c.Thorough() {
+			n = 4000
+		}
+		rng := c.Rand("c10-lifecycle")
+		var sample []*scenario
+		for i := 0; i < n && len(scs) > 0; i++ {
+			sample = append(sample, scs[rng.Intn(len(scs))])
+		}
+		col := &ltrace.Collector{}
+		col.Install()
+		st2 := &stats{bySig: map[string]int{}}
+		replay(c, env, sample, st2)
+		col.Uninstall()
+		groups := col.Groups()
+		c.Add("lifecycle_groups_recorded", int64(len(groups)))
+		ltrace.Validate(c, groups, "c10-replay", func(e ltrace.Event) bool { return e["ev"] != "Dispatch" })
+	}
 	c.Add("traces_validated_against_impl", st.conform)
 	c.Set("failing_signatures", len(st.bySig))
 	c.Set("table_says_fail", st.expFail)
